@@ -846,4 +846,89 @@ def check_conjoin(ctx):
 
 
 
-RULES = [rule_val, rule_tau_b, rule_tau_star, rule_choosers, rule_zclass, rule_collect]
+def rule_alpha(ctx):
+    """TPL-ALPHA (rules/alpha.py): the extracted templates are instantiated on every term up to a depth bound over adversarial names; an
+    instance is capture-free iff code names and unique reference names resolve every occurrence to the same binder."""
+    from .. import alpha
+    fx = ctx.facts
+    A = "syntax_tree::asp::mini_gringo::"
+    zarg = P("$z")
+    templates = {}
+
+    def add(shape, term):
+        f, nf, b = spec(fx, "val", [term, zarg])
+        taken = {}
+        for prefix, count, tk in nf.fresh:
+            taken.setdefault(prefix, tk)
+        templates[shape] = (f, taken)
+    add("Variable", C("Term::Variable", _0=P("$v")))
+    add("Numeral", C("Term::PrecomputedTerm", _0=C("PrecomputedTerm::Numeral", _0=P("$n"))))
+    add("Symbol", C("Term::PrecomputedTerm", _0=C("PrecomputedTerm::Symbol", _0=P("$s"))))
+    add("Infimum", C("Term::PrecomputedTerm", _0=C("PrecomputedTerm::Infimum")))
+    add("Supremum", C("Term::PrecomputedTerm", _0=C("PrecomputedTerm::Supremum")))
+    for u in fx.variants(A + "UnaryOperator"):
+        add("UnaryOperator::" + u, C("Term::UnaryOperation", op=C("UnaryOperator::" + u), arg=P("$arg")))
+    ops = fx.variants(A + "BinaryOperator")
+    for o in ops:
+        add("BinaryOperator::" + o, C("Term::BinaryOperation", op=C("BinaryOperator::" + o), lhs=P("$lhs"), rhs=P("$rhs")))
+    # how the taken names of Q / R are spelled: `var.to_string()` on a fol::Variable prints the sort suffix
+    pb = body_of(fx, "construct_partial_function_formula")
+    suffix = False
+    from ..facts import walk as _walk, strip as _strip
+    for n in _walk(pb["body"]):
+        if n.get("k") == "MethodCall" and n.get("method") == "to_string" and "fol::sigma_0::Variable" in n["recv"].get("ty", ""):
+            suffix = True
+    inst = alpha.Instantiator(templates, suffix)
+    thorough = ctx.tier == "thorough"
+    pool = ["I", "J", "K", "Q", "R", "Z", "X"]
+    leaves = [("var", v) for v in pool] + [("num", 1), ("sym", "a")]
+    if thorough:
+        small = [("var", v) for v in ("I", "J", "Q", "X")] + [("num", 1)]
+        ts = alpha.terms(1, leaves, ["Negative"], ops) + [t for t in alpha.terms(2, small, ["Negative"], ["Add", "Divide", "Interval"])]
+    else:
+        ts = alpha.terms(1, leaves, ["Negative"], ops)
+    zs = [("Z", "General"), ("Z1", "General"), ("V1", "General"), ("I", "Integer"), ("J", "Integer"), ("I1", "Integer")]
+    n = 0
+    bad = []
+    for t in ts:
+        for zn, zsrt in zs:
+            n += 1
+            f = inst.val(t, ((zn, "free:z"), zsrt))
+            cs = alpha.captures(f)
+            if cs and len(bad) < 5:
+                bad.append((alpha.show_term(t), zn + {"General": "", "Integer": "$i"}[zsrt], cs[0], alpha.render(f)[:300]))
+    ctx.count("alpha_val_instances", n)
+    ctx.add("TPL-ALPHA", "val", not bad, ctx.site(body_of(fx, "val")),
+            "val_t(Z) is capture-free on %d instances (terms of depth <= %d over the names %s, Z in %s; taken names of Q / R %s the sort suffix): %s" % (
+                n, 2 if thorough else 1, pool, [z[0] for z in zs], "carry" if suffix else "do not carry", "ok" if not bad else bad[0]), construct=bad or None)
+    # tau^B: exists Z1..Zk (val_t1(Z1) & .. & p(Z1..Zk)),  Z fresh against the variables of the atomic formula  (structure: TPL:tau_b:*)
+    f_lit, nf_lit, _ = spec(fx, "tau_b_first_order_literal", [C("Literal", sign=C("Sign::NoSign"), atom=C("Atom", predicate_symbol=P("$p"), terms=P("$ts"))), P("$taken")])
+    zp = sorted({p_ for p_, c_, t_ in nf_lit.fresh})
+    if len(zp) != 1:
+        raise AnalysisGap("tau_b_first_order_literal: expected one fresh prefix, found %s" % zp)
+    zp = zp[0]
+    pool2 = ["Z", "Z1", "Z2", "I", "J", "X"]
+    leaves2 = [("var", v) for v in pool2] + [("num", 1)]
+    t1s = alpha.terms(1, leaves2, ["Negative"], ["Add", "Divide", "Interval"] if not thorough else ops)
+    n2 = 0
+    bad2 = []
+    import itertools as _it
+    pairs = list(_it.product(leaves2, t1s)) + list(_it.product(t1s, leaves2))
+    for a, b_ in pairs:
+        n2 += 1
+        uv = set(alpha.term_vars(a) + alpha.term_vars(b_))
+        names = alpha.chooser(uv, zp, 2)
+        bz = [((nm, inst.fresh_ref(zp)), "General") for nm in names]
+        body = ("and", [inst.val(a, bz[0]), inst.val(b_, bz[1]), ("atom", "p", [("v", bz[0][0], "General"), ("v", bz[1][0], "General")])])
+        f = ("Q", "Exists", bz, body)
+        # the user variables are bound by the rule's universal prefix
+        g = ("Q", "Forall", [((v, "free:" + v), "General") for v in sorted(uv)], f)
+        cs = alpha.captures(g)
+        if cs and len(bad2) < 5:
+            bad2.append((alpha.show_term(a), alpha.show_term(b_), cs[0], alpha.render(g)[:300]))
+    ctx.count("alpha_tau_b_instances", n2)
+    ctx.add("TPL-ALPHA", "tau_b", not bad2, ctx.site(body_of(fx, "tau_b_first_order_literal")),
+            "exists %s.. (val & p(..)) is capture-free on %d two-argument atoms over the names %s: %s" % (zp, n2, pool2, "ok" if not bad2 else bad2[0]), construct=bad2 or None)
+
+
+RULES = [rule_val, rule_tau_b, rule_tau_star, rule_choosers, rule_zclass, rule_collect, rule_alpha]
